@@ -27,6 +27,14 @@
 (* rejected.  The trace is accepted when its last call is explained.       *)
 (* With obs.fs = obs.net = FALSE and no events this is the coarse check of *)
 (* the verdict observables alone.                                          *)
+(*                                                                         *)
+(* Sizes: in.nw is the number of DISTINGUISHED write calls.  For ordinary  *)
+(* traces that is the number of lines of the published text; for           *)
+(* size-stressed executions (100000 lines, 16 MiB) the recorder reports    *)
+(* only the first, some middle and the last (or failing) write call and    *)
+(* numbers them 1..nw, so the length of the text never reaches TLC; what   *)
+(* the specification predicts does not depend on it.  Histories of 200     *)
+(* versions are validated literally (content ids are integers).            *)
 (***************************************************************************)
 EXTENDS UpdateFile, IOUtils, TLCExt
 
